@@ -5,7 +5,8 @@
 // instrumented copy of the tree.
 //
 //	harness list
-//	harness explore <scenario> <preemption bound | -1> <budget seconds>
+//	harness explore <scenario> <guaranteed preemption bound> <budget seconds>
+//	harness replay <scenario> <c0,c1,...>       (one execution under recorded choices)
 //	harness free <scenario> <iterations>        (no scheduler; for go build -race)
 package main
 
@@ -44,6 +45,10 @@ type scenario struct {
 	name    string
 	threads []func() string
 }
+
+// setups: scenario name -> builds the objects the threads share, run before
+// the threads start (unscheduled, unhooked: it happens-before every thread).
+var setups = map[string]func(){}
 
 func par(fs ...func() string) []func() string { return fs }
 
@@ -265,6 +270,35 @@ func scenarios() []scenario {
 				return fmt.Sprint(ciexyz.AdaptBetweenXYYWhitePoints(ciexyy.D65, ciexyy.D50).Apply(ciexyz.Color{X: 0.3, Y: 0.4, Z: 0.5}))
 			})},
 	)
+	// objects shared between callers: one metadata record and one parsed profile
+	// used by two goroutines, one source image read by two transforms
+	out = append(out, sharedScenarios()...)
+	// 8-bit and 16-bit entry points meeting at first use
+	out = append(out, scenario{"srgb/first 8-bit vs 16-bit", par(
+		func() string { return f32(srgb.From8Bit(200)) + fmt.Sprint(srgb.To8Bit(0.5)) },
+		func() string { return f32(srgb.From16Bit(51400)) },
+		func() string { return fmt.Sprint(srgb.To16Bit(0.5)) })})
+	// many goroutines at first use, only for the free-running -race pass
+	for _, n := range []int{16, 64} {
+		var ts []func() string
+		for i := 0; i < n; i++ {
+			i := i
+			c := coders[i%len(coders)]
+			switch (i / len(coders)) % 5 {
+			case 0:
+				ts = append(ts, func() string { return f32(c.from16(uint16(i * 1000))) })
+			case 1:
+				ts = append(ts, func() string { return fmt.Sprint(c.to16(float32(i) / 64)) })
+			case 2:
+				ts = append(ts, func() string { return fmt.Sprint(c.lin(color.NRGBA64{R: uint16(i * 900), G: 5, B: 60000, A: 65535})) })
+			case 3:
+				ts = append(ts, func() string { return fmt.Sprint(c.enc(color.RGBA64{R: uint16(i * 900), G: 5, B: 60000, A: 65535})) })
+			default:
+				ts = append(ts, func() string { return imgs[i%len(imgs)].run(2 + i%3) })
+			}
+		}
+		out = append(out, scenario{fmt.Sprintf("free/%d goroutines at first use, all spaces", n), ts})
+	}
 	// larger workloads, only for the free-running -race pass (name prefix "free/")
 	bigLin := func(name string, f func(dst *image.RGBA64, src image.Image, p int), p int) scenario {
 		return scenario{fmt.Sprintf("free/%s 100x120 parallelism %d", name, p), par(func() string {
@@ -284,6 +318,73 @@ func scenarios() []scenario {
 	return out
 }
 
+func sharedScenarios() []scenario {
+	withProfile := func(data []byte) []byte {
+		// JPEG with a one-segment ICC profile
+		b := []byte("\xff\xd8\xff\xe2")
+		n := 2 + 14 + len(data)
+		b = append(b, byte(n>>8), byte(n))
+		b = append(b, []byte("ICC_PROFILE\x00\x01\x01")...)
+		b = append(b, data...)
+		return append(b, []byte("\xff\xc0\x00\x11\x08\x00\x20\x00\x30\x03\x01\x22\x00\x02\x11\x01\x03\x11\x01\xff\xda\x00\x0c\x03\x01\x00\x02\x11\x03\x11\x00\x3f\x00\x00")...)
+	}
+	// minimal v4 profile: header, one tag (desc -> mluc with two records)
+	prof := make([]byte, 128)
+	prof[8] = 4
+	copy(prof[36:], "acsp")
+	tag := []byte("mluc\x00\x00\x00\x00\x00\x00\x00\x02\x00\x00\x00\x0c" + "frFR\x00\x00\x00\x06\x00\x00\x00\x28" + "enUS\x00\x00\x00\x08\x00\x00\x00\x2e")
+	tag = append(tag, []byte("\x00N\x00o\x00m\x00N\x00a\x00m\x00e")...)
+	prof = append(prof, 0, 0, 0, 1)
+	prof = append(prof, []byte("desc\x00\x00\x00\x90")...)
+	prof = append(prof, byte(len(tag)>>24), byte(len(tag)>>16), byte(len(tag)>>8), byte(len(tag)))
+	prof = append(prof, tag...)
+	prof[0], prof[1], prof[2], prof[3] = byte(len(prof)>>24), byte(len(prof)>>16), byte(len(prof)>>8), byte(len(prof))
+	file := withProfile(prof)
+	var md *meta.Data
+	var pr interface{ Description() (string, error) }
+	setup := func() {
+		md, _, _ = jpegmeta.Load(bytes.NewReader(file))
+		p, _ := md.ICCProfile()
+		pr = p
+	}
+	useMD := func() string {
+		d, derr := md.ICCProfileData()
+		p, perr := md.ICCProfile()
+		desc := ""
+		if p != nil {
+			desc, _ = p.Description()
+		}
+		return fmt.Sprintf("%d/%v/%v/%q", len(d), derr, perr, desc)
+	}
+	usePR := func() string {
+		d, err := pr.Description()
+		return fmt.Sprintf("%q/%v", d, err)
+	}
+	var src *image.NRGBA
+	mk := func() {
+		src = image.NewNRGBA(image.Rect(0, 0, 3, 2))
+		fillPix(src.Pix, 6)
+	}
+	setups["shared/one meta.Data used by two goroutines"] = setup
+	setups["shared/one icc.Profile described by two goroutines"] = setup
+	setups["shared/one source image, two transforms"] = mk
+	return []scenario{
+		{"shared/one meta.Data used by two goroutines", []func() string{useMD, useMD}},
+		{"shared/one icc.Profile described by two goroutines", []func() string{usePR, usePR}},
+		{"shared/one source image, two transforms", []func() string{
+			func() string {
+				d := image.NewRGBA64(src.Rect)
+				srgb.LineariseImage(d, src, 2)
+				return pixString(d.Pix)
+			},
+			func() string {
+				d := image.NewNRGBA(src.Rect)
+				adobergb.EncodeImage(d, src, 2)
+				return pixString(d.Pix)
+			}}},
+	}
+}
+
 // runThreads is the scenario body: spawn one managed goroutine per thread
 // function, join them, return the results.
 func runThreads(sc *scenario, results []string) {
@@ -291,16 +392,36 @@ func runThreads(sc *scenario, results []string) {
 		results[0] = sc.threads[0]()
 		return
 	}
+	// free-running mode: hold the goroutines at a gate until all are started, so
+	// that their first calls really meet
+	var gate chan struct{}
+	if !vrt.Active() {
+		gate = make(chan struct{})
+	}
 	var wg vsync.WaitGroup
 	wg.Add(len(sc.threads))
 	for i := range sc.threads {
 		i := i
 		vrt.Go(func() {
 			defer wg.Done()
+			if gate != nil {
+				<-gate
+			}
 			results[i] = sc.threads[i]()
 		})
 	}
+	if gate != nil {
+		close(gate)
+	}
 	wg.Wait()
+}
+
+// fresh restores first-use package state and rebuilds the scenario's shared objects.
+func fresh(sc *scenario) {
+	resetAll()
+	if f := setups[sc.name]; f != nil {
+		f()
+	}
 }
 
 type violation struct {
@@ -371,14 +492,14 @@ func explore(sc *scenario, minBound int, budget time.Duration) report {
 	// sequential reference: each thread function executed alone, fresh state each
 	want := make([]string, len(sc.threads))
 	for i := range sc.threads {
-		resetAll()
+		fresh(sc)
 		want[i] = sc.threads[i]()
 	}
 	outcomes := map[string]bool{}
 	sigs := map[string]bool{}
 	seenViolation := map[string]bool{}
 	runOnce := func(prefix []int) (vrt.Result, []string) {
-		resetAll()
+		fresh(sc)
 		results := make([]string, len(sc.threads))
 		res := vrt.Run(prefix, 2000000, func() { runThreads(sc, results) })
 		return res, results
@@ -530,7 +651,7 @@ func explore(sc *scenario, minBound int, budget time.Duration) report {
 func main() {
 	scs := scenarios()
 	if len(os.Args) < 2 {
-		fmt.Fprintln(os.Stderr, "usage: harness list | explore <scenario> <bound> <budget_s> | free <scenario> <iterations>")
+		fmt.Fprintln(os.Stderr, "usage: harness list | explore <scenario> <guaranteed bound> <budget_s> | replay <scenario> <choices> | free <scenario> <iterations>")
 		os.Exit(2)
 	}
 	find := func(name string) *scenario {
@@ -558,16 +679,54 @@ func main() {
 		rep := explore(sc, bound, time.Duration(budget)*time.Second)
 		b, _ := json.Marshal(rep)
 		fmt.Println(string(b))
+	case "replay":
+		// harness replay <scenario> <c0,c1,...>: one execution under the recorded choices
+		sc := find(os.Args[2])
+		var prefix []int
+		for _, f := range strings.Split(strings.Trim(os.Args[3], "[] "), ",") {
+			if f = strings.TrimSpace(f); f != "" {
+				c, _ := strconv.Atoi(f)
+				prefix = append(prefix, c)
+			}
+		}
+		want := make([]string, len(sc.threads))
+		for i := range sc.threads {
+			fresh(sc)
+			want[i] = sc.threads[i]()
+		}
+		fresh(sc)
+		results := make([]string, len(sc.threads))
+		res := vrt.Run(prefix, 2000000, func() { runThreads(sc, results) })
+		fmt.Printf("schedule (running goroutine per step): %s\n", res.Signature)
+		bad := false
+		if res.Failure != "" {
+			fmt.Println("failure:", res.Failure)
+			bad = true
+		}
+		for _, r := range res.Races {
+			fmt.Println(r)
+			bad = true
+		}
+		for i := range want {
+			if results[i] != want[i] {
+				fmt.Printf("goroutine %d returned %.300s; executed alone it returns %.300s\n", i+1, results[i], want[i])
+				bad = true
+			}
+		}
+		if bad {
+			os.Exit(1)
+		}
+		fmt.Println("no violation under this schedule")
 	case "free":
 		sc := find(os.Args[2])
 		iters, _ := strconv.Atoi(os.Args[3])
 		want := make([]string, len(sc.threads))
 		for i := range sc.threads {
-			resetAll()
+			fresh(sc)
 			want[i] = sc.threads[i]()
 		}
 		for it := 0; it < iters; it++ {
-			resetAll()
+			fresh(sc)
 			results := make([]string, len(sc.threads))
 			runThreads(sc, results)
 			for i := range want {
